@@ -117,7 +117,7 @@ DYN=" One publish in five of the random drivers passes the event through an inte
 for k in ("C01","C02","C04","C05","C06","C07","C08","C20"):
     CHECKS[k]["text"]+=DYN
 SELF=" Binding self-test: a trace the run has just recorded and validated is falsified in several ways (one clause each) and the trace specification must reject every falsified copy; an accepted one is an error of the machinery (exit 2)."
-for k in ("C01","C09","C13","C10","C11","C14","C16","C17","C18","C19"):
+for k in ("C01","C09","C13","C10","C11","C12","C14","C15","C16","C17","C18","C19"):
     CHECKS[k]["text"]+=SELF
 CHECKS["C03"]["technique"]+="; recorded multi-goroutine executions under the race detector validated against BusTrace.tla (Bus.tla's Wait / Shutdown / Sequential-turn steps) with a watchdog"
 CHECKS["C06"]["text"]+=" A failing store Close is modelled (StoreClose(g, ok)): it is what Shutdown returns."
